@@ -42,3 +42,22 @@ func specSlicesClone(f *frame, callee *ssa.Function, args []Val, in string, st *
 	}
 	return Val{T: r, Typ: s.Typ}, true
 }
+
+// declRuneCount declares the abstract rune counter shared by the stdspec of
+// utf8.RuneCount and the spec builtin runecount(x). It is a function of the
+// slice's CONTENT (content_ h s : index -> byte) and length only, so writes to
+// other memory do not disturb it.
+func (vc *VC) declRuneCount() {
+	if vc.absFns["runeCountC_"] {
+		return
+	}
+	vc.absFns["runeCountC_"] = true
+	vc.lines = append(vc.lines, "(declare-fun runeCountC_ ((Array Int Int) Int) Int)",
+		"(assert (forall ((c (Array Int Int)) (n Int)) (! (=> (>= n 0) (and (<= 0 (runeCountC_ c n)) (<= (runeCountC_ c n) n))) :pattern ((runeCountC_ c n)))))")
+}
+
+// runeCountTerm is utf8.RuneCount of slice s in byte heap h.
+func (vc *VC) runeCountTerm(h, s string) string {
+	vc.declRuneCount()
+	return App("runeCountC_", App("content_", h, s), App("sl.len", s))
+}
